@@ -267,16 +267,32 @@ def main(argv=None):
     ap.add_argument("--repo", default="/repo")
     ap.add_argument("--seed", type=int, default=1)
     ap.add_argument("--only", action="append")
+    ap.add_argument("--merge", action="store_true", help="with --only: add the entries to seeded/RESULTS-<P>.json")
     a = ap.parse_args(argv)
     res = run_catalogue(a.property, a.repo, a.seed, a.only, log=lambda s: print(s, flush=True))
+    each = [{k: r.get(k) for k in ("id", "source", "status", "wall_s", "note", "first_reports")} for r in res["details"]]
+    path = os.path.join(SEEDED, "RESULTS-%s.json" % a.property)
     if not a.only:
         # the last full run per property is kept next to the seeded changes (which check caught what, first reports)
         os.makedirs(SEEDED, exist_ok=True)
-        with open(os.path.join(SEEDED, "RESULTS-%s.json" % a.property), "w") as f:
+        with open(path, "w") as f:
             json.dump({"property": a.property, "seed": a.seed,
-                       "summary": {k: v for k, v in res.items() if k != "details"},
-                       "each": [{k: r.get(k) for k in ("id", "source", "status", "wall_s", "note", "first_reports")}
-                                for r in res["details"]]}, f, indent=1)
+                       "summary": {k: v for k, v in res.items() if k != "details"}, "each": each}, f, indent=1)
+    elif a.merge and os.path.exists(path):
+        # changes imported after the last full run: their entries are added to (or replace those in) its record
+        with open(path) as f:
+            doc = json.load(f)
+        new_ids = {e["id"] for e in each}
+        doc["each"] = [e for e in doc["each"] if e["id"] not in new_ids] + [dict(e, run_separately=True) for e in each]
+        ran = [e for e in doc["each"] if e["status"] in ("caught", "survived")]
+        doc["summary"] = {"run": len(ran), "caught": sum(e["status"] == "caught" for e in ran),
+                          "survived": [e["id"] for e in ran if e["status"] == "survived"],
+                          "stale": [e["id"] for e in doc["each"] if e["status"] == "stale"],
+                          "outside_property": [e["id"] for e in doc["each"] if e["status"] == "outside_property"],
+                          "errors": [e["id"] for e in doc["each"] if e["status"] not in
+                                     ("caught", "survived", "stale", "outside_property")]}
+        with open(path, "w") as f:
+            json.dump(doc, f, indent=1)
     print(json.dumps({k: v for k, v in res.items() if k != "details"}, indent=1))
     for r in res["details"]:
         if r["status"] != "caught":
